@@ -323,7 +323,9 @@ func (db *ContractDB) loadFile(file, pkgPath string) (err error) {
 			}
 			if _, dup := db.specs[sf.Name]; dup {
 				// identical re-declaration in another package file is tolerated
-				if db.specs[sf.Name].Src != sf.Src {
+				old := db.specs[sf.Name]
+				sameShape := old.Body == nil && sf.Body == nil && len(old.Params) == len(sf.Params) && old.Ghost == sf.Ghost
+				if old.Src != sf.Src && !sameShape {
 					return fail("spec %s declared twice with different text", sf.Name)
 				}
 				continue
